@@ -59,26 +59,37 @@ def reach_roundtrip_{CLOUD}_{JP}(ci: int, preemptible: bool, c: int, k: int, e: 
 '''
 
 EMAX = {'gcp': 64 * 1024, 'azure': 32 * 1024}
+CHUNK = {('gcp', 'pack'): 60, ('gcp', 'whole'): 60, ('gcp', 'roundtrip'): 40,
+         ('azure', 'pack'): 40, ('azure', 'whole'): 12, ('azure', 'roundtrip'): 8}
 
 
-def source(H, ms, max_cfg=None):
+def source(H, ms, emax=None):
+    """One condition per (cloud, job_private, kind[, m], chunk of the configuration list)."""
+    emax = emax or EMAX
     out = ['import harness.C13_bill as H\n']
     names = []
     for cloud in ('gcp', 'azure'):
         for jp in (True, False):
             n = len(H.CONFIGS[(cloud, jp)])
-            hi = n if max_cfg is None else min(n, max_cfg)
             tag = 'private' if jp else 'pool'
+
+            def chunks(kind):
+                step = CHUNK[(cloud, kind)]
+                return [(lo, min(lo + step, n)) for lo in range(0, n, step)]
+
             for m in ms:
                 cs = [f'c{i}' for i in range(m)]
                 ks = [f'k{i}' for i in range(m)]
                 args = ', '.join(f'{c}: int, {k}: int' for c, k in zip(cs, ks))
                 nonneg = ' and '.join(f'{x} >= 0' for x in cs + ks)
-                out.append(PACK.format(CLOUD=cloud, JP=tag, JPB=jp, M=m, ARGS=args, LO=0, HI=hi, CS=', '.join(cs),
-                                       KS=', '.join(ks), NONNEG=nonneg))
-                names.append(('pack', f'pack_{cloud}_{tag}_{m}', dict(cloud=cloud, jp=jp, m=m)))
-            out.append(WHOLE.format(CLOUD=cloud, JP=tag, JPB=jp, LO=0, HI=hi, EMAX=EMAX[cloud]))
-            names.append(('whole', f'whole_{cloud}_{tag}', dict(cloud=cloud, jp=jp)))
-            out.append(RT.format(CLOUD=cloud, JP=tag, JPB=jp, LO=0, HI=hi, EMAX=EMAX[cloud]))
-            names.append(('roundtrip', f'roundtrip_{cloud}_{tag}', dict(cloud=cloud, jp=jp)))
+                for lo, hi in chunks('pack'):
+                    out.append(PACK.format(CLOUD=cloud, JP=f'{tag}_{lo}', JPB=jp, M=m, ARGS=args, LO=lo, HI=hi, CS=', '.join(cs),
+                                           KS=', '.join(ks), NONNEG=nonneg))
+                    names.append(('pack', f'pack_{cloud}_{tag}_{lo}_{m}', dict(cloud=cloud, jp=jp, m=m, lo=lo, hi=hi)))
+            for lo, hi in chunks('whole'):
+                out.append(WHOLE.format(CLOUD=cloud, JP=f'{tag}_{lo}', JPB=jp, LO=lo, HI=hi, EMAX=emax[cloud]))
+                names.append(('whole', f'whole_{cloud}_{tag}_{lo}', dict(cloud=cloud, jp=jp, lo=lo, hi=hi)))
+            for lo, hi in chunks('roundtrip'):
+                out.append(RT.format(CLOUD=cloud, JP=f'{tag}_{lo}', JPB=jp, LO=lo, HI=hi, EMAX=emax[cloud]))
+                names.append(('roundtrip', f'roundtrip_{cloud}_{tag}_{lo}', dict(cloud=cloud, jp=jp, lo=lo, hi=hi)))
     return '\n'.join(out), names
